@@ -3,7 +3,8 @@ from ..kengine import H
 
 ID = "C07"
 MODULE = "c07"
-ENGINE = "K"
+ENGINE = "KM"
+TECHNIQUE = "status tables: Kani/CBMC bounded model checking of the compiled code for every u16; response parser: symbolic execution of the MIR of Response::from_stream / parse_chunk on conforming-response templates with symbolic holes -> z3; counterexamples replayed natively"
 
 META = {
     "functions_encoded": [
@@ -29,3 +30,69 @@ def harnesses():
     for h in hs:
         h.module = MODULE
     return hs
+
+
+def run(tier, run_k):
+    import json, os, time
+    from ..common import WORK, REPLAY_DIR, log, write_evidence
+    from . import c07_resp
+    k = run_k()
+    t0, rc, cov, assumptions, nviol = k["t0"], k["rc"], k["cov"], k["assumptions"], k["violations"]
+    from mirsym.dump import dump_mir
+    work = os.path.join(WORK, ID)
+    try:
+        mir, dt = dump_mir("humphrey", work, features="verif")
+        d = c07_resp.run_part(tier, work, mir, "ok")
+    except Exception as e:
+        log("UNDISCHARGED: response parser — %s" % str(e)[:500])
+        d = {"results": [], "violations": [], "known_hits": [], "machinery": [], "undischarged": [{"template": "all", "why": str(e)[:300]}], "validation": {}}
+    os.makedirs(REPLAY_DIR, exist_ok=True)
+    for i, r in enumerate(d["violations"][:2]):
+        path = os.path.join(REPLAY_DIR, "C07-response-%d.json" % i)
+        with open(path, "w") as f:
+            json.dump({"property": ID, "engine": "M", "kind": "response", "replay": r["replay"], "how": "./check C07 --replay " + path}, f, indent=1)
+        log("VIOLATION property=%s replay=%s" % (ID, path))
+        rp = r["replay"]
+        log("   response %r: %s" % (rp["text"][:140], rp["failed"][:140]))
+        log("   natively dev: %s / release: %s%s" % (rp["native_dev"][:160], rp["native_release"][:160], ("   expected: " + rp["expected"][:160]) if rp.get("expected") else ""))
+        rc = 1
+        nviol += 1
+    for m in d["machinery"]:
+        log("MACHINERY-ERROR: response parser — " + m[:600])
+        rc = rc or 2
+    for r in d["undischarged"][:6]:
+        log("UNDISCHARGED: response parser template %s — %s" % (r.get("template"), r.get("why")))
+    ok = [r for r in d["results"] if r["verdict"] == "unsat"]
+    log("   response parser (engine M): %d/%d conforming-response templates discharged, %d paths, %d z3 checks, translator validation on %s responses" % (
+        len(ok), len(d["results"]), sum(r.get("paths", 0) for r in d["results"]), sum(r.get("n_checks", 0) for r in d["results"]), d["validation"].get("inputs")))
+    cov["evaluations"] += len(d["results"])
+    cov["distinct_nontrivial"] += len(ok)
+    cov["obligations"] = cov.get("obligations", 0) + len(d["results"])
+    cov["discharged"] = cov.get("discharged", 0) + len(ok)
+    cov["states"] = cov.get("states", 0) + sum(r.get("blocks", 0) for r in d["results"])
+    cov["transitions"] = cov.get("transitions", 0) + sum(r.get("n_checks", 0) for r in d["results"])
+    cov["traces_validated_against_impl"] = cov.get("traces_validated_against_impl", 0) + (d["validation"].get("inputs") or 0)
+    cov["solver_time_s"] = round(cov.get("solver_time_s", 0) + sum(r.get("solver_s", 0) for r in d["results"]), 2)
+    cov["response_parser"] = {
+        "functions_encoded": ["humphrey/src/http/response.rs: Response::from_stream, parse_chunk, safe_assert and their closures; status.rs <StatusCode as TryFrom<u16>>::try_from, From<StatusCode> for u16; headers.rs HeaderType::from, Headers::{new, add, get, remove} (MIR of the current tree)"],
+        "templates": {r["template"]: {k2: r.get(k2) for k2 in ("verdict", "paths", "n_checks", "wall_s", "why")} for r in d["results"]},
+        "obligation": "for every value of the holes: Ok(Response) with the version sent, the status whose number is in the status line (every number Humphrey models accepted, others rejected), the typed header list in order with values as sent (leading whitespace removed — with or without a space after the colon), and the payload: Content-Length bytes, or the concatenated chunks with Transfer-Encoding replaced by the right Content-Length; exactly the response consumed; no panic",
+        "bounds": "status 100..599 as three symbolic digits with a symbolic reason; header values of 1..4 (thorough 18) characters; Content-Length bodies of 0, 2, 3 (64) arbitrary bytes; chunked bodies of 0..2 (3) chunks with sizes 1..10 (31) in upper/lower-case hex, arbitrary chunk bytes; no trailers, no chunk extensions",
+        "translator_validation": d["validation"],
+        "undischarged": d["undischarged"][:10],
+        "violations": [r["replay"] for r in d["violations"]][:3],
+    }
+    cov["functions_encoded"] = list(cov.get("functions_encoded", [])) + cov["response_parser"]["functions_encoded"]
+    cov.setdefault("engines", {})["mirsym"] = "own MIR symbolic executor (/verif/mirsym) + z3 5.1.0"
+    assumptions = assumptions + ["response parser: BufReader model over the scripted bytes (read segmentation only sampled natively), the listed std models; validated per run against the native parser on concrete well-formed and malformed responses"]
+    write_evidence(ID, tier, cov, assumptions, time.time() - t0, nviol)
+    log("== %s: %d/%d obligations discharged (K status tables + M response parser), %d violation(s); %.0fs wall" % (ID, cov["discharged"], cov["obligations"], nviol, time.time() - t0))
+    return rc
+
+
+def replay(d, path):
+    from .. import mengine, kengine
+    from . import c07_resp
+    mengine.setup(ID)
+    kengine.write_lists({})
+    return c07_resp.replay(d, path, ID)
